@@ -52,6 +52,9 @@ type Store struct {
 	rvSeq       int
 	// rejectNames: object names that admission rejects with Invalid (dry-run and real).
 	RejectNames map[string]bool
+	// DryRunErr: object names whose DRY-RUN requests fail with a server-side API error that is not a verdict
+	// about the object (InternalError, TooManyRequests, ServiceUnavailable, Timeout).
+	DryRunErr map[string]string
 	// cache view of the manager cache (PKO CRs) when lag is enabled
 	Lag       bool
 	cacheObjs map[Key]map[string]any
@@ -69,6 +72,7 @@ func NewStore() *Store {
 		lastApplied: map[Key]map[string]any{},
 		kinds:       map[schema.GroupKind]KindInfo{},
 		RejectNames: map[string]bool{},
+		DryRunErr:   map[string]string{},
 		cacheObjs:   map[Key]map[string]any{},
 		Invisible:   map[Key]bool{},
 		mapper:      meta.NewDefaultRESTMapper(nil),
